@@ -665,9 +665,13 @@ spec fn head(t: Type) -> int {
         Type::Function(..) => 11, Type::Blob(..) => 12, Type::ExternBlob(..) => 13, Type::Enum(..) => 14,
     }
 }
-/// same constructor, and the same length for tuples
+/// same constructor; the same length for tuples; the same field names for blobs and the same
+/// variant names for enums
 spec fn shape_eq(x: Type, y: Type) -> bool {
-    head(x) == head(y) && (x is Tuple ==> x->Tuple_0.len() == y->Tuple_0.len())
+    &&& head(x) == head(y)
+    &&& (x is Tuple ==> x->Tuple_0.len() == y->Tuple_0.len())
+    &&& (x is Blob ==> x->Blob_2@.dom() == y->Blob_2@.dom())
+    &&& (x is Enum ==> x->Enum_2@.dom() == y->Enum_2@.dom())
 }
 /// type of the class of node `i`
 spec fn cty(ts: Seq<TypeNode>, i: int) -> Type { ts[rep0(ts, i)].ty }
@@ -752,11 +756,13 @@ spec fn s_brk(s: Statement, l: bool) -> bool decreases s {
     }
 }
 /// the deferred constraint a binary operator records on BOTH operand classes (each mentions the other)
+/// same constructor, and the same length for tuples
+spec fn shape0_eq(x: Type, y: Type) -> bool { head(x) == head(y) && (x is Tuple ==> x->Tuple_0.len() == y->Tuple_0.len()) }
 /// head-level operator tables (they only look at constructors and tuple lengths)
-spec fn add_heads(x: Type, y: Type) -> bool { shape_eq(x, y) && (x is Float || x is Int || x is Str || x is Tuple) }
-spec fn arith_heads(x: Type, y: Type) -> bool { shape_eq(x, y) && (x is Float || x is Int || x is Tuple) }
-spec fn cmp_heads(x: Type, y: Type) -> bool { (is_num(x) && is_num(y)) || (x is Str && y is Str) || (x is Tuple && shape_eq(x, y)) }
-spec fn div_heads(x: Type, y: Type) -> bool { (is_num(x) && is_num(y)) || (x is Tuple && is_num(y)) || (x is Tuple && shape_eq(x, y)) }
+spec fn add_heads(x: Type, y: Type) -> bool { shape0_eq(x, y) && (x is Float || x is Int || x is Str || x is Tuple) }
+spec fn arith_heads(x: Type, y: Type) -> bool { shape0_eq(x, y) && (x is Float || x is Int || x is Tuple) }
+spec fn cmp_heads(x: Type, y: Type) -> bool { (is_num(x) && is_num(y)) || (x is Str && y is Str) || (x is Tuple && shape0_eq(x, y)) }
+spec fn div_heads(x: Type, y: Type) -> bool { (is_num(x) && is_num(y)) || (x is Tuple && is_num(y)) || (x is Tuple && shape0_eq(x, y)) }
 /// the full (deep) operator tables imply the head-level ones
 broadcast proof fn lemma_add_heads(m: Seq<Type>, a: TyID, b: TyID)
     ensures #[trigger] add_ok_all(m, a, b) ==> m[a.0 as int] is Unknown || m[b.0 as int] is Unknown || add_heads(m[a.0 as int], m[b.0 as int]),
@@ -782,15 +788,15 @@ spec fn con_violated(ts: Seq<TypeNode>, a: TyID, c: Constraint) -> bool {
         Constraint::DivTop(b) => !(ty_of(ts, b) is Unknown) && !div_heads(ta, ty_of(ts, b)),
         Constraint::DivBot(b) => !(ty_of(ts, b) is Unknown) && !div_heads(ty_of(ts, b), ta),
         Constraint::DivRes(_) => false,
-        Constraint::Equ(b) => !(ty_of(ts, b) is Unknown) && !shape_eq(ta, ty_of(ts, b)),
+        Constraint::Equ(b) => !(ty_of(ts, b) is Unknown) && !shape0_eq(ta, ty_of(ts, b)),
         Constraint::Cmp(b) => !(ty_of(ts, b) is Unknown) && !cmp_heads(ta, ty_of(ts, b)),
-        Constraint::CmpEqu(b) => !(ty_of(ts, b) is Unknown) && (!shape_eq(ta, ty_of(ts, b)) || !cmp_heads(ta, ty_of(ts, b))),
+        Constraint::CmpEqu(b) => !(ty_of(ts, b) is Unknown) && (!shape0_eq(ta, ty_of(ts, b)) || !cmp_heads(ta, ty_of(ts, b))),
         Constraint::Neg => !(ta is Int || ta is Float),
         Constraint::ConstantIndex(i, _) => !(ta is Tuple) || i >= ta->Tuple_0.len(),
-        Constraint::Field(_, _) => !(ta is Blob || ta is ExternBlob),
+        Constraint::Field(name, _) => !(ta is Blob || ta is ExternBlob) || (ta is Blob && !ta->Blob_2@.dom().contains(name)),
         Constraint::Num => !(ta is Int || ta is Float),
         Constraint::Enum => !(ta is Enum),
-        Constraint::Variant(_, _) => !(ta is Enum),
+        Constraint::Variant(v, _) => !(ta is Enum) || !ta->Enum_2@.dom().contains(v),
         Constraint::TotalEnum(_) => !(ta is Enum),
         Constraint::Variable => ta is Void,
     }
@@ -2241,6 +2247,8 @@ impl TypeChecker {
 //@ fn sylt-compiler/src/typechecker.rs sub_unify
 //@   in TypeChecker
 //@   props C02 C03 C04 C05 C07
+//@   splitmatch 2
+//@   split 1 { return Err(opaque_errs(span)); }
 //@   attr #[verifier::exec_allows_no_decreases_clause]
 //@   attr #[verifier::loop_isolation(false)]
 //@   ret r
@@ -2298,6 +2306,15 @@ impl TypeChecker {
                         forall|i: int| 0 <= i < xs2.len() ==> *(#[trigger] it.seq()[i]).0 == xs2[i] && *it.seq()[i].1 == ys2[i], //# - sub_unify.loop2.aux3
                         forall|k: int| 0 <= k < xs2.len() ==> (#[trigger] xs2[k]).0 < n2 && (#[trigger] ys2[k]).0 < n2, //# C07 sub_unify.loop2.aux4
 //@   endloop
+//@   loop 3 binder it
+                    invariant
+                        vstd::std_specs::btree::key_obeys_cmp_spec::<String>(), //# C07 sub_unify.loop3.aux1
+                        forall|j: int| 0 <= j < it.seq().len() ==> a_fields@.dom().contains(*(#[trigger] it.seq()[j]).0), //# - sub_unify.loop3.aux2
+                        forall|j: int| 0 <= j < it.index@ ==> b_fields@.dom().contains(*(#[trigger] it.seq()[j]).0), //# C05 sub_unify.loop3.every_field_of_the_first_blob_is_a_field_of_the_second
+//@   endloop
+//@   ghost after-loop 3
+                assert(forall|k: String| a_fields@.dom().contains(k) ==> b_fields@.dom().contains(k)); //# C05 sub_unify.fields_of_the_first_blob_are_fields_of_the_second
+//@   endghost
 //@   ghost before-loop 4
                 let ghost n4 = self.types@.len();
 //@   endghost
@@ -2308,7 +2325,11 @@ impl TypeChecker {
                         vstd::std_specs::btree::key_obeys_cmp_spec::<String>(), //# C02,C07 sub_unify.loop4.aux3
                         fields_in_range(a_fields, n4 as int), fields_in_range(b_fields, n4 as int), //# C02,C07 sub_unify.loop4.aux4
                         forall|j: int| 0 <= j < it.seq().len() ==> b_fields@.contains_pair(*(#[trigger] it.seq()[j]).0, *it.seq()[j].1), //# - sub_unify.loop4.aux5
+                        forall|j: int| 0 <= j < it.index@ ==> a_fields@.dom().contains(*(#[trigger] it.seq()[j]).0), //# C05 sub_unify.loop4.every_field_of_the_second_blob_is_a_field_of_the_first
 //@   endloop
+//@   ghost after-loop 4
+                assert(a_fields@.dom() =~= b_fields@.dom()); //# C05 sub_unify.unified_blobs_have_the_same_field_names
+//@   endghost
 //@   ghost before-loop 5
                 let ghost n5 = self.types@.len(); let ghost xs5 = a_args@; let ghost ys5 = b_args@;
 //@   endghost
@@ -2321,6 +2342,15 @@ impl TypeChecker {
                         forall|k: int| 0 <= k < xs5.len() ==> (#[trigger] xs5[k]).0 < n5, //# C07 sub_unify.loop5.aux5
                         forall|k: int| 0 <= k < ys5.len() ==> (#[trigger] ys5[k]).0 < n5, //# C07 sub_unify.loop5.aux6
 //@   endloop
+//@   loop 6 binder it
+                    invariant
+                        vstd::std_specs::btree::key_obeys_cmp_spec::<String>(), //# C07 sub_unify.loop6.aux1
+                        forall|j: int| 0 <= j < it.seq().len() ==> a_variants@.dom().contains(*(#[trigger] it.seq()[j]).0), //# - sub_unify.loop6.aux2
+                        forall|j: int| 0 <= j < it.index@ ==> b_variants@.dom().contains(*(#[trigger] it.seq()[j]).0), //# C05 sub_unify.loop6.every_variant_of_the_first_enum_is_a_variant_of_the_second
+//@   endloop
+//@   ghost after-loop 6
+                assert(forall|k: String| a_variants@.dom().contains(k) ==> b_variants@.dom().contains(k)); //# C05 sub_unify.variants_of_the_first_enum_are_variants_of_the_second
+//@   endghost
 //@   ghost before-loop 7
                 let ghost n7 = self.types@.len();
 //@   endghost
@@ -2331,7 +2361,11 @@ impl TypeChecker {
                         vstd::std_specs::btree::key_obeys_cmp_spec::<String>(), //# C02,C07 sub_unify.loop7.aux3
                         fields_in_range(a_variants, n7 as int), fields_in_range(b_variants, n7 as int), //# C02,C07 sub_unify.loop7.aux4
                         forall|j: int| 0 <= j < it.seq().len() ==> b_variants@.contains_pair(*(#[trigger] it.seq()[j]).0, *it.seq()[j].1), //# - sub_unify.loop7.aux5
+                        forall|j: int| 0 <= j < it.index@ ==> a_variants@.dom().contains(*(#[trigger] it.seq()[j]).0), //# C05 sub_unify.loop7.every_variant_of_the_second_enum_is_a_variant_of_the_first
 //@   endloop
+//@   ghost after-loop 7
+                assert(a_variants@.dom() =~= b_variants@.dom()); //# C05 sub_unify.unified_enums_have_the_same_variant_names
+//@   endghost
 //@   ghost before
 //@| if a == b || seen.contains(&(a, b)) {
         let ghost ts1 = self.types@;
